@@ -243,6 +243,12 @@ def step (st : Option St) (line : String) : Option St × String :=
       (some { s with eng := r.1 },
         (if op == "insert" then "rejected" else "err") ++ " acts= rec=" ++ showRecover s.disk)
     else
+    if ((natField? fs "io").getD 0) > 0 && op != "restart" then
+      -- an injected fault fired but the operation reported SUCCESS: some best-effort internal step absorbed it (a failed
+      -- rotation / snapshot is tolerated, the write itself is durable).  Which step is not visible here: the model
+      -- abstains and the comparison of this case ends (the property oracle keeps judging the implementation).
+      (some s, "unpredicted amb=1")
+    else
     if op == "tick" || op.startsWith "bk_" then
       match bkStep s op fs with
       | some (s', o) => (some s', o)
